@@ -1,6 +1,7 @@
 import Got.Drv.Common
 import Got.Model.BytesBuffer
 import Got.Model.BytesStream
+import Got.Model.BytesStreamAst
 /-
 drv_bytes: one script line = one op sequence on a fresh object
 
@@ -12,6 +13,11 @@ drv_bytes: one script line = one op sequence on a fresh object
   op   = [<letter>:] <operation>  (object selector, default `a`: independent model instances in one case)
   <payload> = hex string | `-` (empty) | `#<n>:<s>` (n bytes, byte j = (s+j) mod 256)
             | `@<n>:<s>` (n bytes, byte j = byte (j mod 4) of the little-endian uint32 (s<<22)+j/4; large chunks)
+
+With the argument `ast` the `stream` lines are answered by INTERPRETING the MiniGoBytes terms tools/srcfacts regenerates
+from /repo/iox/octets_stream.go (`Got.Generated.AstIox`, through `Got.Model.BytesStreamAst.astCall` — the function the
+theorems `C13_translated_source_*` are about): every op is one `run table "OctetsStream.<Method>"`, every observation is
+the interpreted `Bytes()`, `Len()`, `Position()`.  `buffer` lines are answered by the model in both modes.
 
 output: per-op observations joined by ` ; `
   buffer:  <result> / <Bytes> <Len> <String> <Seek(0,Current)> <Cap>
@@ -194,6 +200,73 @@ def sRun (ops : List String) : String :=
         go (update sel r.1 objs) rest ((sOut tag r.2 ++ " / " ++ sObserve r.1) :: acc)
   " ; ".intercalate (go [] ops [])
 
+
+/- ---------------- Stream, `ast` mode: the interpreted generated terms ---------------- -/
+section ast
+open Got.Model.MiniGoBytes (St Val Out run)
+open Got.Generated.AstIox (table)
+
+def astFuel : Nat := 64
+
+def aErr : Option Got.Model.MiniGoBytes.Err → String
+  | none => "nil"
+  | some .InvalidArgument => "inval"
+  | some .NotEnoughData => "nodata"
+  | some .Bad7BitInt => "bad7bit"
+  | some .NegativeSize => "negsize"
+
+/-- the observation line of one call, from the Go-level results of the interpreted method -/
+def aOut (tag : String) (op : Stream.Op) : Option Out → String
+  | none => "stuck"
+  | some .panic => "panic"
+  | some (.ret vs outs _) =>
+    match op, vs, outs with
+    | .read _, [.int n, .err e], [some dst] => s!"r {rd ((dst.take n.toNat).map BitVec.toNat)} {aErr e}"
+    | .readByte, [.bv _ _ b, .err e], _ => s!"b {hex2 b.toNat} {aErr e}"
+    | .seek _ _, [.bv _ _ r, .err e], _ => s!"s {r.toInt} {aErr e}"
+    | .tidy, [], _ => tag
+    | .reset, [], _ => tag
+    | .read _, _, _ => "ill-typed"
+    | .readByte, _, _ => "ill-typed"
+    | .seek _ _, _, _ => "ill-typed"
+    | .tidy, _, _ => "ill-typed"
+    | .reset, _, _ => "ill-typed"
+    | _, [.err e], _ => s!"w {aErr e}"
+    | _, _, _ => "ill-typed"
+
+def aObserve (st : St) : String :=
+  let by_ := match run table "OctetsStream.Bytes" astFuel [] st with
+    | some (.ret [.bytes bs] _ _) => rd (bs.map BitVec.toNat)
+    | some .panic => "panic"
+    | _ => "stuck"
+  let ln := match run table "OctetsStream.Len" astFuel [] st with
+    | some (.ret [.int n] _ _) => toString n
+    | some .panic => "panic"
+    | _ => "stuck"
+  let ps := match run table "OctetsStream.Position" astFuel [] st with
+    | some (.ret [.int n] _ _) => toString n
+    | some .panic => "panic"
+    | _ => "stuck"
+  joinSp [by_, ln, ps]
+
+def aRun (ops : List String) : String :=
+  let rec go (objs : List (Char × St)) : List String → List String → List String
+    | [], acc => acc.reverse
+    | o :: rest, acc =>
+      let (sel, ws) := selector (words o)
+      match sParse ws with
+      | none => (("bad-op") :: acc).reverse
+      | some (op, tag) =>
+        let st := lookupD (⟨[], 0, 0⟩ : St) sel objs
+        let r := Got.Model.BytesStreamAst.astCall astFuel st op
+        let st' := match r with
+          | some (.ret _ _ st') => st'
+          | _ => st
+        go (update sel st' objs) rest ((aOut tag op r ++ " / " ++ aObserve st') :: acc)
+  " ; ".intercalate (go [] ops [])
+
+end ast
+
 def maxExpandedOps : Nat := 50000
 
 /-- `rep <k> ( op , op , ... )` ↦ k copies of the body, `$` replaced by the round number mod 251 -/
@@ -217,7 +290,7 @@ def expand (items : List String) : Option (List String) :=
       | _ => go rest (it :: acc)
   go items []
 
-def step (_ : Unit) (line : String) : Unit × String :=
+def stepWith (ast : Bool) (_ : Unit) (line : String) : Unit × String :=
   match line.splitOn " | " with
   | [head, body] =>
     let items := (body.splitOn ";").map (fun s => s.trimAscii.toString) |>.filter (· ≠ "")
@@ -229,11 +302,14 @@ def step (_ : Unit) (line : String) : Unit × String :=
       | some ops =>
         if ops.isEmpty then ((), "noop")
         else if h = "buffer" then ((), bRun ops)
+        else if ast then ((), aRun ops)
         else ((), sRun ops)
   | [""] => ((), "")
   | _ => ((), "bad-op")
 
-def main (_args : List String) : IO Unit := do
-  lineLoop (← IO.getStdin) (← IO.getStdout) step ()
+def step : Unit → String → Unit × String := stepWith false
+
+def main (args : List String) : IO Unit := do
+  lineLoop (← IO.getStdin) (← IO.getStdout) (stepWith (args = ["ast"])) ()
 
 end Got.Drv.Bytes
